@@ -529,6 +529,19 @@ def f_affine(tier="quick", seed=0):
                       "mapping": {"partitioning": {"Z": {"K": dirs, "M": ["follow(K)"]}}},
                       "extents": {"M": 5, "K": 9},
                       "tags": {"family": "affine", "template": "sub-followK", "follow": True, "levels": lv}})
+    # an access that is affine in four index variables (sums of >= 4 terms in the projection and the halo)
+    d4 = {"I": ["W"], "F": ["S"], "G": ["V"], "O": ["P", "Q"]}
+    e4 = {"P": 2, "Q": 2, "S": 2, "V": 2, "W": 6}
+    for lo in (["P", "Q", "S", "V"], ["P", "S", "V", "Q"], ["W", "P", "S", "Q"], ["S", "V", "P", "Q"], ["W", "S", "V", "P"]):
+        specs.append({"name": "affine/four-vars/lo=%s" % ",".join(lo), "decl": d4, "exprs": ["O[p, q] = I[p + q + s + 2*v] * F[s] * G[v]"],
+                      "mapping": {"loop-order": {"O": lo}}, "extents": e4,
+                      "tags": {"family": "affine", "template": "four-vars", "follow": False}})
+    specs.append({"name": "affine/four-vars/nomap", "decl": d4, "exprs": ["O[p, q] = I[p + q + s + 2*v] * F[s] * G[v]"],
+                  "mapping": {}, "extents": e4, "tags": {"family": "affine", "template": "four-vars", "follow": False}})
+    specs.append({"name": "affine/four-vars/Q-part", "decl": d4, "exprs": ["O[p, q] = I[p + q + s + 2*v] * F[s] * G[v]"],
+                  "mapping": {"partitioning": {"O": {"Q": ["uniform_shape(2)"], "W": ["follow(Q)"]}}, "loop-order": {"O": ["P", "Q1", "S", "V", "Q0"]}},
+                  "extents": {"P": 2, "Q": 4, "S": 2, "V": 2, "W": 8},
+                  "tags": {"family": "affine", "template": "four-vars", "follow": True, "levels": 1, "aligned": True, "psize": 2}})
     # 2-D convolution
     d2 = {"F": ["R", "S"], "I": ["H", "W"], "O": ["P", "Q"]}
     for lo in (["P", "Q", "R", "S"], ["R", "S", "P", "Q"], ["P", "R", "Q", "S"], ["H", "W", "R", "S"], ["H", "R", "W", "S"],
